@@ -40,12 +40,21 @@ class _FileBufferedContext(_CounterFuncContext):
 
     def __enter__(self):
         super().__enter__()
-        if self._buffer_capacity is not None:
+        buffer_capacity = self._buffer_capacity
+        self._buffer_capacity = None
+        if buffer_capacity is not None:
             self._original_buffer_capacitys.append(self._cls.get_buffer_capacity())
-            self._cls.set_buffer_capacity(self._buffer_capacity)
         else:
             self._original_buffer_capacitys.append(None)
-        self._buffer_capacity = None
+        try:
+            if buffer_capacity is not None:
+                self._cls.set_buffer_capacity(buffer_capacity)
+        except BaseException as error:
+            # Lowering the capacity can force a flush, which can raise. __exit__
+            # is not called when __enter__ raises, so the context must be left
+            # here or the class would stay in buffered mode forever.
+            self.__exit__(type(error), error, error.__traceback__)
+            raise
 
     def __exit__(self, exc_type, exc_val, exc_tb):
         try:
